@@ -17,11 +17,13 @@ package forwarder
 
 //@ func (f *Forwarder) IsProtocolPaused(ctx, protocolID) (paused, err)
 //@   requires[inv] f != nil
-//@   ensures[C08] err == nil ==> paused == protoPaused(f, protocolID)
+//@   ensures[C08,C17,C17c] err == nil ==> paused == protoPaused(f, protocolID)
+//@   ensures[C17,C17c] err == nil                      // (A-COLL-OK)
 
 //@ func (f *Forwarder) IsCrossChainPaused(ctx, ccID) (paused, err)
 //@   requires[inv] f != nil
-//@   ensures[C08] err == nil ==> paused == ccPaused(f, ccID.ProtocolId, ccID.CounterpartyId)
+//@   ensures[C08,C17,C17c] err == nil ==> paused == ccPaused(f, ccID.ProtocolId, ccID.CounterpartyId)
+//@   ensures[C17,C17c] err == nil                      // (A-COLL-OK)
 
 //@ func (f *Forwarder) SetPausedProtocol(ctx, protocolID) (err)
 //@   requires[inv] f != nil
@@ -29,6 +31,10 @@ package forwarder
 //@   ensures[C08] err == nil ==> !old(protoPaused(f, protocolID)) && protoSetIs(f, protocolID, true)
 //@   ensures[C08] err != nil ==> ks_i32 == old(ks_i32)
 //@   ensures[C08] old(protoPaused(f, protocolID)) ==> err != nil
+//   C17 (A-COLL-OK): pausing a supported protocol that is not paused succeeds
+//@   ensures[C17,C17c] err == nil ==> !old(protoPaused(f, protocolID)) && protoSetIs(f, protocolID, true)
+//@   ensures[C17,C17c] err != nil ==> ks_i32 == old(ks_i32)
+//@   ensures[C17,C17c] okProto(protocolID) && !old(protoPaused(f, protocolID)) ==> err == nil
 
 //@ func (f *Forwarder) SetUnpausedProtocol(ctx, protocolID) (err)
 //@   requires[inv] f != nil
@@ -43,6 +49,32 @@ package forwarder
 //@   ensures[C08] err == nil ==> !old(ccPaused(f, ccID.ProtocolId, ccID.CounterpartyId)) && ccSetIs(f, ccID.ProtocolId, ccID.CounterpartyId, true)
 //@   ensures[C08] err != nil ==> ks_pair == old(ks_pair)
 //@   ensures[C08] old(ccPaused(f, ccID.ProtocolId, ccID.CounterpartyId)) ==> err != nil
+//   C17 (A-COLL-OK): pausing a valid cross-chain identifier that is not paused succeeds
+//@   ensures[C17,C17c] err == nil ==> !old(ccPaused(f, ccID.ProtocolId, ccID.CounterpartyId)) && ccSetIs(f, ccID.ProtocolId, ccID.CounterpartyId, true)
+//@   ensures[C17,C17c] err != nil ==> ks_pair == old(ks_pair)
+//@   ensures[C17,C17c] vcc(ccID) && !old(ccPaused(f, ccID.ProtocolId, ccID.CounterpartyId)) ==> err == nil
+
+// Genesis (C17): on a store with nothing paused, a valid genesis initialises without error and afterwards
+// exactly the listed protocols and cross-chain identifiers are paused; no other collection is touched.
+//@ macro nothingPaused(f) = (forall k int :: !ks_i32[f.pausedProtocols][k]) && (forall p int, c string :: !ks_pair[f.pausedCrossChains][p][c])
+//@ macro gcc(g, j) = deref(g.PausedCrossChainIds[j])
+//@ func (f *Forwarder) InitGenesis(ctx, g) (err)
+//@   requires[inv] f != nil
+//@   modifies ks_i32, ks_pair
+//@   requires[C17,C17c] nothingPaused(f)
+//@   loop 0 invariant[C17] forall j int :: 0 <= j && j < idx ==> ks_i32[f.pausedProtocols][g.PausedProtocolIds[j]]
+//@   loop 0 invariant[C17c] forall k int trigger(ks_i32[f.pausedProtocols][k]) :: (forall j int :: 0 <= j && j < idx ==> g.PausedProtocolIds[j] != k) ==> !ks_i32[f.pausedProtocols][k]
+//@   loop 0 invariant[C17,C17c] (forall c int :: c != f.pausedProtocols ==> ks_i32[c] == old(ks_i32[c])) && ks_pair == old(ks_pair)
+//@   loop 1 invariant[C17] forall j int :: 0 <= j && j < idx ==> ks_pair[f.pausedCrossChains][gcc(g, j).ProtocolId][gcc(g, j).CounterpartyId]
+//@   loop 1 invariant[C17c] forall p int, c string trigger(ks_pair[f.pausedCrossChains][p][c]) :: (forall j int :: 0 <= j && j < idx ==> !(gcc(g, j).ProtocolId == p && gcc(g, j).CounterpartyId == c)) ==> !ks_pair[f.pausedCrossChains][p][c]
+//@   loop 1 invariant[C17,C17c] forall c int :: c != f.pausedCrossChains ==> ks_pair[c] == old(ks_pair[c])
+//@   ensures[C17c] fwdGenesisOK(g) ==> err == nil
+//@   ensures[C17] err == nil ==> fwdGenesisOK(g)
+//@   ensures[C17] err == nil ==> forall j int :: 0 <= j && j < len(g.PausedProtocolIds) ==> ks_i32[f.pausedProtocols][g.PausedProtocolIds[j]]
+//@   ensures[C17] err == nil ==> forall j int :: 0 <= j && j < len(g.PausedCrossChainIds) ==> ks_pair[f.pausedCrossChains][gcc(g, j).ProtocolId][gcc(g, j).CounterpartyId]
+//@   ensures[C17c] err == nil ==> forall k int trigger(ks_i32[f.pausedProtocols][k]) :: (forall j int :: 0 <= j && j < len(g.PausedProtocolIds) ==> g.PausedProtocolIds[j] != k) ==> !ks_i32[f.pausedProtocols][k]
+//@   ensures[C17c] err == nil ==> forall p int, c string trigger(ks_pair[f.pausedCrossChains][p][c]) :: (forall j int :: 0 <= j && j < len(g.PausedCrossChainIds) ==> !(gcc(g, j).ProtocolId == p && gcc(g, j).CounterpartyId == c)) ==> !ks_pair[f.pausedCrossChains][p][c]
+//@   ensures[C17,C17c] (forall c int :: c != f.pausedProtocols ==> ks_i32[c] == old(ks_i32[c])) && (forall c int :: c != f.pausedCrossChains ==> ks_pair[c] == old(ks_pair[c]))
 
 //@ func (f *Forwarder) SetUnpausedCrossChain(ctx, ccID) (err)
 //@   requires[inv] f != nil
